@@ -88,6 +88,11 @@ func (o *ttyOrder) check(kind string, tag string, raw []string, add func(class, 
 				add("tty-order:start-twice", "op %s (%s): Start on a tty that is already started", tag, kind)
 			}
 			o.started, o.drained, o.seenStart = true, false, true
+		case e == "Start(failed)":
+			// the tty refused to start: nothing is started, and the library must leave it at that (no writes, no Close)
+			if o.started {
+				add("tty-order:start-twice", "op %s (%s): Start on a tty that is already started", tag, kind)
+			}
 		case e == "Drain":
 			if !o.started {
 				add("tty-order:drain-after-stop", "op %s (%s): Drain on a stopped tty", tag, kind)
@@ -359,6 +364,7 @@ func execModes(line string) (res h.Result) {
 	checkResumed("i") // nothing is requested yet: nothing may be on; also notes whether a title was saved
 	suspended := false
 	alive := true
+	oracleOnly := false
 	for i, op := range ops {
 		t := strings.Fields(op)
 		if len(t) == 0 {
@@ -456,6 +462,17 @@ func execModes(line string) (res h.Result) {
 				tags["double-suspend"] = true
 			}
 			suspended = true
+		case "RF":
+			// Resume during which Tty.Start fails.  The screen stays suspended; the Tty contract (no write, no Close outside
+			// Fini) and everything after it — a retried Resume, Suspend, Fini — are judged by the oracles; the model has no
+			// failing tty, so the line is oracle-only.
+			oracleOnly = true
+			if suspended && !sh.finished {
+				tty.FailStart = true
+				tags["resume-start-fails"] = true
+			}
+			call(func() { _ = scr.Resume() })
+			tty.FailStart = false
 		case "R":
 			if !suspended {
 				tags["resume-while-running"] = true
@@ -532,6 +549,9 @@ func execModes(line string) (res h.Result) {
 		}
 	}
 	res.Obs = strings.Join(obs, " ")
+	if oracleOnly {
+		res.Obs = "SKIP history with a failing Tty.Start: judged by the oracles only"
+	}
 	if staleVariant {
 		res.Obs = "SKIP line recorded on a tree of the other locked-neighbour variant: judged by the oracle only"
 	}
@@ -581,6 +601,10 @@ func genModes(g *h.Gen) {
 				"S 2 0 67 - " + st(tcell.ColorYellow, tcell.ColorGreen, 2|8), "S 0 1 68 - " + st(tcell.ColorRed, 0, 0), "W", "Q"}
 			ops = append(ops, fitOps(name, cols)...)
 			g.Emit("modes %s%s 0 %d 4 2 %s", name, drawVariantSuffix(), alt, strings.Join(ops, "; "))
+		}
+		if name == "xterm-256color" || name == "linux" || name == "vt100" {
+			g.Emit("modes %s%s 0 1 4 2 ME 7; PE; W; Z; RF; R; W; Z; RF; Q", name, drawVariantSuffix())
+			g.Emit("modes %s%s 0 1 4 2 FE; W; Z; RF; RF; R; W; Q", name, drawVariantSuffix())
 		}
 		// … and application calls that land while the Suspend / Fini is in progress
 		g.Emit("modes %s%s 0 1 4 2 ME 7; PE; FE; W; ZN FD; R; W; ZN MD; R; FE; ME 3; W; ZN PD; R; W; QN FD", name, drawVariantSuffix())
@@ -650,7 +674,14 @@ func genModes(g *h.Gen) {
 				}
 			case k < 93:
 				if !finished { // Resume after Fini is outside the property's histories (see lib/props/C04.py)
-					ops = append(ops, "R")
+					if r.Chance(8) {
+						ops = append(ops, "RF") // the tty refuses to start; usually retried
+						if r.Chance(70) {
+							ops = append(ops, "R")
+						}
+					} else {
+						ops = append(ops, "R")
+					}
 				}
 			case k < 94:
 				if j > nops/2 {
